@@ -77,7 +77,7 @@ pub fn run(args: &Args, r: &mut Report) {
                 (TimeKind::Both, false) => 'b',
                 (TimeKind::Both, true) => 'B',
             });
-            case.script.timings.push(TimingSpec { kind, offset_s: 600 + rng.below(7200), min_wait_s });
+            case.script.timings.push(TimingSpec { kind, offset_s: 600 + rng.below(7200), min_wait_s, same_as_previous: rng.chance(1, 3) });
         }
         case.shape.push(l);
         case.shape.push(tl.chars().take(8).collect());
